@@ -220,6 +220,22 @@ theorem convVarint_enc {α} (f : Nat → Option α) (v : Nat) (hv : v < two64) (
     convVarint f (encVarint v ++ rest) = .ok x (encVarint v).length := by
   unfold convVarint; rw [decodeVarint_encVarint v hv]; simp [hf]
 
+/-- **Value range of `sint32`.** A varint that does not fit in 32 bits asked for as `sint32` is an overflow
+    error (as for `int32` / `uint32`), one that fits is the zig-zag decoding of its 32 bits. -/
+theorem sint32_range (v : Nat) (hv : v < two64) (rest : Bytes) :
+    convZz32 (encVarint v ++ rest) =
+      if v > 4294967295 then .overflow else .ok (unzigzag (v % two32)) (encVarint v).length := by
+  unfold convZz32
+  rw [decodeVarint_encVarint v hv]
+  have hpos : (encVarint v).length ≠ 0 := by have := encVarint_length_pos v; omega
+  simp [hpos]
+
+theorem sint32_overflow (fd : FD) (cs : List Bytes) (v : Nat) (hv : v < two64) (hbig : v > 4294967295) (rest : Bytes)
+    (hd : fd.data = cs ++ [encVarint v ++ rest]) (hwt : fd.wt = wtVarint) :
+    accessFD fd .sint32 = .overflow := by
+  simp only [accessFD, scalarValue, hd, List.getLast?_append, List.getLast?_singleton, Option.some_or, hwt,
+    ne_eq, not_true_eq_false, if_false, sint32_range v hv rest, hbig, if_true]
+
 /-- the inner loop over one occurrence: a run of encoded values yields exactly those values -/
 theorem chunkValues_run {α} (conv : Bytes → Conv α) (enc : α → Bytes)
     (henc : ∀ v rest, conv (enc v ++ rest) = .ok v (enc v).length) (hpos : ∀ v, 0 < (enc v).length) :
